@@ -26,6 +26,14 @@ func newRecWriter(script []int) *recWriter {
 
 func (w *recWriter) Header() http.Header { return w.hdr }
 
+// ReadFrom makes the recording writer an io.ReaderFrom, like net/http's own response writer: data copied this way is
+// recorded as one write (rux's writer has no ReadFrom of its own, so this is only reached if it delegates to it)
+func (w *recWriter) ReadFrom(r io.Reader) (int64, error) {
+	b, err := io.ReadAll(r)
+	n, _ := w.Write(b)
+	return int64(n), err
+}
+
 // Hijack makes the recording writer an http.Hijacker (no real connection is involved)
 func (w *recWriter) Hijack() (net.Conn, *bufio.ReadWriter, error) {
 	w.log = append(w.log, L(A("hijacked")))
